@@ -12,7 +12,7 @@ ENTRY = dict(
                 "replay: generated block-structured programs run on the real engine, paced by whole-process quiescence, every "
                 "segment of requests / completions / error traces and the final variables compared with the model at the "
                 "extracted configuration, and with the token game (the property)."),
-    level_note=("UNCONDITIONAL on the fragment without inclusive gateways (Props/C01Fragment, C01FragmentCurrent): for EVERY program whose nodes are start / end events, activities with any conditional outgoing flows, exclusive and parallel gateways, catch / throw events and embedded sub-processes (any nesting, re-entered in loops) — any graph, structured or not, any size — every data and every sequence of answers (ok / error with any handler mode), the run of the engine model at the configuration extracted from today's /repo never logs a deviation and IS, state by state, the run of the BPMN token game Cfg.ideal (noIncl_conformance, current_noIncl_conformance; for programs also without sub-processes it holds whatever the two sub-process switches are: fragment_conformance). So the inclusive gateway is the only node kind on which today's engine model can leave the token game (noIncl_hypothesis_needed: it does). BLOCK LEVEL, chains (Props/C01Chain): for every chain start -> a1 -> ... -> an -> end of any length (ids pairwise distinct), every code configuration, data and answers: StartAll requests a1, each answer is followed by exactly one request — of the next activity in insertion order — and the last by the end event (chain_conformance, by induction along the chain), hence identical to the token game step by step (chain_matches_token_game). Other block kinds have no block-level theorem. Refinement proved (Props/C01Conformance): for every code configuration, program, data and answer sequence, a "
+    level_note=("UNCONDITIONAL on the fragment without inclusive gateways (Props/C01Fragment, C01FragmentCurrent): for EVERY program whose nodes are start / end events, activities with any conditional outgoing flows, exclusive and parallel gateways, catch / throw events and embedded sub-processes (any nesting, re-entered in loops) — any graph, structured or not, any size — every data and every sequence of answers (ok / error with any handler mode), the run of the engine model at the configuration extracted from today's /repo never logs a deviation and IS, state by state, the run of the BPMN token game Cfg.ideal (noIncl_conformance, current_noIncl_conformance; for programs also without sub-processes it holds whatever the two sub-process switches are: fragment_conformance). So the inclusive gateway is the only node kind on which today's engine model can leave the token game (noIncl_hypothesis_needed: it does). Intermediate throw events reached by tokens are part of the model (every token passes, all outgoing flows: extracted fact throwFuse, obligation current_throwPasses_ok; the hypothesis is needed — throwFuse_hypothesis_needed is the kernel-checked witness of D38, the second token consumed at the event); throw events INSIDE a sub-process are entry points there by the engine's design (triggered when the sub-process is entered) and are not modelled. BLOCK LEVEL, chains (Props/C01Chain): for every chain start -> a1 -> ... -> an -> end of any length (ids pairwise distinct), every code configuration, data and answers: StartAll requests a1, each answer is followed by exactly one request — of the next activity in insertion order — and the last by the end event (chain_conformance, by induction along the chain), hence identical to the token game step by step (chain_matches_token_game). Other block kinds have no block-level theorem. Refinement proved (Props/C01Conformance): for every code configuration, program, data and answer sequence, a "
                 "run that logs no deviation cause IS a run of the token game under an admissible inclusive-join policy "
                 "(every join decision inside the interval the property allows), and equals the run of Cfg.ideal when the "
                 "cohort switch is off; the naive statement 'equals Cfg.ideal' is refuted by a kernel-checked witness. The "
@@ -24,7 +24,7 @@ ENTRY = dict(
     lean_modules=["Bpmn.Props.C01", "Bpmn.Props.C01Conformance", "Bpmn.Props.EngineCurrent", "Bpmn.Props.C01Chain", "Bpmn.Props.C01Fragment", "Bpmn.Props.C01FragmentCurrent"],
     families=["c01", "c01d", "c01re", "c01twin", "c01patient"],
     facts_from=["Engine"],
-    rule=("c01patient: tokens waiting at a parallel join, an inclusive join, inside a sub-process and at tasks while the driver does nothing for 6.2 s of real time (waiting is not an event), then the run goes on; c01twin: TWO instances of one parsed definitions value with different data, alive at the same time, answered in a seeded interleaving (the second created after 0..3 answers of the first): each run judged on its own — nothing may carry over from one instance into the other; c01re: RE-ENTRY — the same inclusive fork / join pair activated 2..3 times in a loop with a different truth assignment in every round (what a gateway keeps between two activations must not leak from one decision into the next); c01d: 48 DIRECTED programs for the data a condition sees — [exclusive split on a variable]? -> parallel / inclusive "
+    rule=("a quarter of the generated c01 programs get one or two intermediate throw events without event definition in front of a top-level task / exclusive gateway (all its incoming flows end at the event: one token per merged branch, one per loop round passes it); c01patient: tokens waiting at a parallel join, an inclusive join, inside a sub-process and at tasks while the driver does nothing for 6.2 s of real time (waiting is not an event), then the run goes on; c01twin: TWO instances of one parsed definitions value with different data, alive at the same time, answered in a seeded interleaving (the second created after 0..3 answers of the first): each run judged on its own — nothing may carry over from one instance into the other; c01re: RE-ENTRY — the same inclusive fork / join pair activated 2..3 times in a loop with a different truth assignment in every round (what a gateway keeps between two activations must not leak from one decision into the next); c01d: 48 DIRECTED programs for the data a condition sees — [exclusive split on a variable]? -> parallel / inclusive "
           "fork -> A || B (writes y) [|| sub-process whose inner task writes z]? -> join -> exclusive split on y / z: every "
           "fixed order of answering the pending tasks (it decides which token survives the join) x values written; the "
           "variable written by another token must be seen by the next condition, whichever token evaluates it. "
